@@ -405,7 +405,7 @@ type stageAReplay struct {
 var opAlphabet = []Op{"start:0", "start:1", "start:2", "start:3", "resume", "restore", "inspect:0", "inspect:3", "eval", "find:child", "chlang:1"}
 
 // a second, smaller alphabet around the flows with per-contact recipients and the boolean webhook
-var opAlphabet2 = []Op{"start:4:A", "start:5", "resume", "restore", "eval"}
+var opAlphabet2 = []Op{"start:4:A", "start:5", "start:1", "resume", "restore", "eval", "evalfn"}
 
 func stageA(c *mc.Ctx, doc []byte, maxLen int) {
 	c.Fact("stageA_ran")
@@ -740,6 +740,7 @@ func flowsUsed(names []string) int {
 			switch {
 			case s == "start:0":
 				used["0"], used["1"] = true, true
+			case s == "evalfn", s == "eval", s == "dump", s == "resume", s == "restore":
 			case strings.HasPrefix(s, "start:4"):
 				used["4"], used["1"] = true, true // its start_session action loads the flow it names
 			case strings.HasPrefix(s, "start:"), strings.HasPrefix(s, "inspect:"):
@@ -904,7 +905,7 @@ func stageC(c *mc.Ctx, runs int) {
 	c.Fact("stageC_ran")
 	exe := c.Args["race_exe"]
 	combos := [][]string{{"family", "child", "old", "legacy"}, {"child", "child", "inspect", "family"}, {"legacy", "legacy", "old", "old"}, {"inspect", "family", "child", "legacy"},
-		{"bcastA", "bcastB", "bcastA", "bcastB"}, {"hook", "child", "hook", "child"}}
+		{"bcastA", "bcastB", "bcastA", "bcastB"}, {"hook", "child", "hook", "child"}, {"fn", "fn", "fn", "child"}}
 	for i := 0; i < runs; i++ {
 		if !c.Mine(i) {
 			continue
